@@ -45,6 +45,21 @@ class An:
     def __init__(self, prog):
         self.prog = prog
         self.interp = Interp(prog)
+        # never inline functions that sit on the parsing path (they reach a version parser): rules refer to their calls
+        targets = set(i for i, n in enumerate(prog.nodes) if n["path"] in VERSION_PARSERS.values())
+        rev = {}
+        for i, n in enumerate(prog.nodes):
+            for c in n["callees"]:
+                rev.setdefault(c, []).append(i)
+        seen = set(targets)
+        st = list(targets)
+        while st:
+            x = st.pop()
+            for p in rev.get(x, []):
+                if p not in seen:
+                    seen.add(p)
+                    st.append(p)
+        self.interp.keep = set(prog.nodes[i]["path"] for i in seen if prog.nodes[i]["local"])
 
     def slicer(self, body):
         return self.interp.slicer(body.path) if body.path in self.prog.bodies else Slicer(body)
